@@ -141,6 +141,22 @@ func loadKnown() []KnownFinding {
 	return doc.Findings
 }
 
+// floorErrors lists the rules that matched fewer instances than their floor.
+func (r *Report) floorErrors() []string {
+	var out []string
+	var names []string
+	for n := range r.Rules {
+		names = append(names, n)
+	}
+	sort.Strings(names)
+	for _, n := range names {
+		if s := r.Rules[n]; s.Instances < s.Floor {
+			out = append(out, fmt.Sprintf("rule %s matched %d instances, floor is %d", n, s.Instances, s.Floor))
+		}
+	}
+	return out
+}
+
 // Finish writes evidence and violation files, prints the verdict lines and returns the exit code.
 func (r *Report) Finish(quiet bool) int {
 	known := loadKnown()
